@@ -3,6 +3,7 @@ package eb
 import (
 	"bytes"
 	"fmt"
+	"github.com/openebs/jiva/backend/dynamic"
 	"io"
 	"net"
 	"net/http"
@@ -606,7 +607,7 @@ func newCluster(cfg *Cfg, scratch string) *cluster {
 		cl.nodes = append(cl.nodes, nd)
 	}
 	curr = cl
-	cl.c = controller.NewController(controller.WithName("vol"), controller.WithBackend(factory{cl}), controller.WithFrontend(cl.fe, ""), controller.WithRF(cfg.RF))
+	cl.c = controller.NewController(controller.WithName("vol"), controller.WithBackend(dynamic.New(map[string]types.BackendFactory{"tcp": factory{cl}})), controller.WithFrontend(cl.fe, ""), controller.WithRF(cfg.RF))
 	return cl
 }
 
